@@ -460,16 +460,16 @@ def vclass(viol):
 # --------------------------------------------------------------------------
 
 #: instants later than this many events are reached by fork-at-instant instead of a re-run from the start
-FORK_FROM = {'line': 4000, 'opcode': 16000}
+FORK_FROM = {'line': 4000, 'opcode': 16000, 'xline': 5000}
 
 INTERESTING = {'action', '_fill', 'elect', 'defeat', 'unpend', 'copy', 'postCheck', 'cState', 'cDict', 'as_dict',
                'logAction', 'log', 'newRound', 'count', 'record', 'info'}
 
 PARAMS = {
     'quick': dict(exh_cap=2000, sample=300, op_cases=0.15, op_stride=5, op_random=60, main_cases=0.25, main_k=36,
-                  sigint=0.01, window_orders=2, crosscheck=3, cprofile=0.08, op_max=700),
+                  sigint=0.01, window_orders=2, crosscheck=3, cprofile=0.08, op_max=700, x_cases=0.2, x_max=100, max_k=1100),
     'thorough': dict(exh_cap=8000, sample=1500, op_cases=0.5, op_stride=1, op_random=400, main_cases=0.4, main_k=120,
-                     sigint=0.02, window_orders=3, crosscheck=6, cprofile=0.1, op_max=5000),
+                     sigint=0.02, window_orders=3, crosscheck=6, cprofile=0.1, op_max=5000, x_cases=0.5, x_max=500, max_k=5000),
 }
 
 
@@ -509,6 +509,17 @@ def line_schedule(ref, P, rnd):
         lo = 1 + (T * j) // S
         hi = max(lo, (T * (j + 1)) // S)
         ks.add(rnd.randint(lo, hi))
+    if len(ks) > P['max_k']:
+        # a very long count: keep the header window and the action boundaries, thin out the rest
+        keep = set(range(1, min(T, fill_end + 50) + 1))
+        for (n, _) in ref['nact_changes']:
+            keep.update(x for x in (n - 1, n) if 1 <= x <= T)
+        keep &= ks
+        rest = sorted(ks - keep)
+        room = max(0, P['max_k'] - len(keep))
+        if len(rest) > room:
+            rest = rnd.sample(rest, room)
+        ks = keep | set(rest)
     return sorted(ks), False
 
 
@@ -568,9 +579,10 @@ def make_case(seed, idx, tier):
             except UnicodeDecodeError:
                 pass
     r = rnd.random()
-    large = r > (0.94 if tier == 'quick' else 0.85)
-    small = (not large) and r < (0.66 if tier == 'quick' else 0.4)
-    e, o, text = gen.gen_case(rnd, rule=rule, small=small, slow_ok=(rnd.random() < 0.3), large=large)
+    xlarge = r > (0.985 if tier == 'quick' else 0.96)       # 20-30 candidates, 40-120 ballot lines
+    large = (not xlarge) and r > (0.94 if tier == 'quick' else 0.85)
+    small = (not large) and (not xlarge) and r < (0.66 if tier == 'quick' else 0.4)
+    e, o, text = gen.gen_case(rnd, rule=rule, small=small, slow_ok=(rnd.random() < 0.3), large=large, xlarge=xlarge)
     raw = gen.encode_blt(text, rnd)
     return e, o, text, raw, rnd
 
@@ -705,6 +717,8 @@ def run_case(R, seed, idx, tier):
             probe('inside_action_builder')
         if 'copy' in stack:
             probe('inside_rounds_copy')
+        if not site[0].startswith('droop'):
+            probe('inside_stdlib_code')
         if site[0].startswith('droop/values'):
             probe('inside_values_code')
         if site[0].startswith('droop/rules'):
@@ -855,6 +869,36 @@ def run_case(R, seed, idx, tier):
         else:
             probe('opcode_ref_unusable')
 
+    # ---- instants inside standard-library code called from the package (fractions, copy, sort keys ...)
+    if rnd.random() < P['x_cases']:
+        ref_x = run_reference(R, text, o, 'xline', REF_BUDGET[tier] * 3)
+        if ref_x['ok'] and ref_x['actions'] == ref['actions']:
+            foreign = {}
+            for i, sid in enumerate(ref_x['sites']):
+                sid &= ~Tracer.SPAN_BIT
+                if not ref_x['site_list'][sid][0].startswith('droop'):
+                    foreign.setdefault(sid, []).append(i + 1)
+            ksx = set()
+            for sid, occ in foreign.items():
+                ksx.add(occ[0])
+                ksx.add(occ[rnd.randrange(len(occ))])
+            allocc = [k for occ in foreign.values() for k in occ]
+            for _ in range(min(len(allocc), P['x_max'])):
+                ksx.add(allocc[rnd.randrange(len(allocc))])
+            ksx = sorted(ksx)[:P['x_max'] * 2]
+            if ksx:
+                out['steps'] += ref_x['T']
+                sched = {k: [('raise', ORDERS[(k + salt) % len(ORDERS)])] for k in ksx}
+                if not sweep(ref_x, 'xline', sched, REF_BUDGET[tier] * 3):
+                    if out['why']:
+                        out['dropped_viol'] = len(out['viol'])
+                        out['viol'] = []
+                        return out
+                confirm_converted(ref_x)
+                probe('stdlib_frame_cases')
+        else:
+            probe('xline_ref_unusable')
+
     # ---- reference stability (history dependence is C20's subject, not ours)
     ref2 = run_reference(R, text, o, 'line', REF_BUDGET[tier])
     if not ref2['ok'] or not _same_ref(ref, ref2):
@@ -909,7 +953,7 @@ def run_replay(R, obj, tier='quick'):
     o = obj['case']['options']
     f = obj['fault']
     event = f['event']
-    ref = run_reference(R, text, o, event, REF_BUDGET['thorough'] * (8 if event == 'opcode' else 1))
+    ref = run_reference(R, text, o, event, REF_BUDGET['thorough'] * (8 if event == 'opcode' else 3 if event == 'xline' else 1))
     if not ref['ok']:
         return None, 'reference: ' + ref['why']
     flags = set(obj['flags']) if obj.get('flags') else None
@@ -925,7 +969,7 @@ def run_replay(R, obj, tier='quick'):
 
 def _find(R, text, raw, o, target, event, order, driver, flags, mech, ks):
     "first k of ks at which the target violation class shows; (k, viol) or None"
-    ref = run_reference(R, text, o, event, REF_BUDGET['quick'] * (8 if event == 'opcode' else 1))
+    ref = run_reference(R, text, o, event, REF_BUDGET['quick'] * (8 if event == 'opcode' else 3 if event == 'xline' else 1))
     if not ref['ok']:
         return None
     for k in ks:
